@@ -22,7 +22,8 @@ COQ_CHUNK = 60
 THEOREMS = ['C15_get_value_is_resolve', 'C15_resolved_unique', 'C15_get_value_total_wf',
             'C15_get_value_total_acyclic', 'C15_order_irrelevant', 'C15_ground_value_stable',
             'C15_findall_bag_stable', 'C15_to_python_resolve', 'C15_to_python_spec',
-            'C15_to_python_spec_cases', 'C15_ground_to_python_stable']
+            'C15_to_python_spec_cases', 'C15_ground_to_python_stable',
+            'C15_get_value_allocates_its_result', 'C15_value_structure_stable', 'C15_engine_steps_evolve']
 RULE = ('binding forests over 2-7 variables (each bound variable gets a term over higher-ranked variables: chains of '
         '1-4 variables ending in a structure, structures with inner variables) emitted as equations in a random or '
         'exhaustively permuted order, so that the same answer is reached outer-structure-first, inner-first and through '
